@@ -791,6 +791,16 @@ def run_histories(rec, sc, variant, dseed, layout="C"):
         except Exception as e:     # noqa
             rec.errors["%s first fit %s %s" % (unit, hname, type(e).__name__)] = 1
             continue
+        # use the fitted object before refitting it (transform / predict / score ...): anything
+        # such a call caches must not survive the refit
+        method_steps = [(m, kw) for m, kw in spec.get("steps", []) if m not in ("fit", "fit_transform", "sample") and not m.startswith("set_")]
+        for m, kw in method_steps:
+            try:
+                with warnings.catch_warnings():
+                    warnings.simplefilter("ignore")
+                    invoke(est, m, realise(kw, layout))
+            except Exception:      # noqa
+                pass
         try:
             with warnings.catch_warnings():
                 warnings.simplefilter("ignore")
@@ -805,6 +815,29 @@ def run_histories(rec, sc, variant, dseed, layout="C"):
         elif d:
             rec.violation("C09 fails: %s refitted (%s) differs from a fresh estimator fitted on the second data set: %s" % (
                 unit, hname, "; ".join(d[:4])), case, key="%s.fit:refit %s" % (unit, hname), detail=d)
+        else:
+            # ... and every method must answer like the fresh estimator's
+            for m, kw in method_steps:
+                try:
+                    with warnings.catch_warnings():
+                        warnings.simplefilter("ignore")
+                        want = invoke(fresh, m, realise(kw, layout))
+                except Exception:      # noqa  (not applicable to the second data set)
+                    continue
+                rec.stats["refit_method_comparisons"] = rec.stats.get("refit_method_comparisons", 0) + 1
+                try:
+                    with warnings.catch_warnings():
+                        warnings.simplefilter("ignore")
+                        got = invoke(est, m, realise(kw, layout))
+                except Exception as e:     # noqa
+                    rec.violation("C09 fails: %s.%s raises %s after a refit (%s) although it works on a fresh estimator" % (
+                        unit, m, type(e).__name__, hname), case, key="%s.%s:after refit %s" % (unit, m, hname))
+                    break
+                if not close(snap(got), snap(want)):
+                    rec.violation("C09 fails: %s.%s after a refit (%s) differs from the same call on a fresh estimator fitted "
+                                  "on the second data set" % (unit, m, hname), case,
+                                  key="%s.%s:after refit %s" % (unit, m, hname))
+                    break
 
 
 def run_dynamic(ctx):
